@@ -103,7 +103,8 @@ int run(const Args& A) {
                 targets.push_back(v);
             } else {
                 static const unsigned dens[] = {0, 5, 20, 50, 80, 100};
-                targets.push_back(randomTable(r, D, k, dens[r.below(6)]));
+                if (r.chance(1, 3)) { targets.push_back(structuredTable(r, D, k, dens[1 + r.below(5)])); STATS.hit("gen.structured"); }
+                else targets.push_back(randomTable(r, D, k, dens[r.below(6)]));
             }
         }
         // EV* forests: half of the cases use TINY magnitudes (2^-21 .. 2^-30, exact in a float and above the
